@@ -11,8 +11,9 @@ C evaluators: histories interleaving creations (the whole creation grammar: elem
   of a list) as the list of this one item.  The reading of C03 consistent with it: on such a node `name[1]` IS `name[len]`
   - the value of a key is wrapped as the first element and exactly one element is appended (`name[1]/y`: the element
   {y: v}); index 0 / -1 / last() is the node itself (steps that follow create below it); every other index - and [1] on
-  a single value that is an element of a list, where there is no name to hold the new list, as for new() - cannot be
-  honoured: the assignment raises and the tree stays as it was.
+  a single value that is an element of a list, where there is no name to hold the new list, as for new(), and [1] written
+  after a hidden [0] (a[0][1]: once a is [old, v] that text no longer leads to v) - cannot be honoured: the assignment
+  raises and the tree stays as it was.
 """
 import copy
 
@@ -229,7 +230,10 @@ HID_TAILS = [("", []), ("", []), ("/y9", [("N", "y9")]), ("/y9/z9", [("N", "y9")
 # (text, steps) that create below a dict addressed as item 0 / -1 / last() of its hidden list
 HID_BELOW = [("/y9", [("N", "y9")]), ("/y9/z9", [("N", "y9"), ("N", "z9")]), ("/y9[new()]", [("Enew", "y9")]), ("/y9[0]", [("E0", "y9")])]
 HID_SELF = ["[0]", "[-1]", "[last()]", "/[0]", "[ 0 ]", "[0][-1]"]
-HID_ONE = ["[1]", "[ 1 ]", "[0+1]", "/[1]", "[0][1]", "[last()+2]"]
+HID_ONE = ["[1]", "[ 1 ]", "[0+1]", "/[1]", "[last()+2]"]
+# item [1] of the hidden list of an item [0] of a hidden list: once `a` is the list [old, v] the text a[0][1] does not
+# lead to v any more, so d[xpath] could not be v afterwards - it cannot be honoured
+HID_ONE_NESTED = ["[0][1]", "[-1][1]", "[0]/[1]", "[last()][0][1]"]
 HID_OUT = ["[2]", "[3]", "[7]", "[-2]", "[-5]", "[last()-1]", "[1+1]", "/[2]"]
 
 
@@ -244,7 +248,10 @@ def gen_hidden(rng, tree):
     under_key = isinstance(p[-1], str)
     r = rng.random()
     c = {"tree": tree, "pos": list(p), "hid": True}
-    if r < 0.4:
+    if r < 0.08:
+        txt, steps = rng.choice(HID_TAILS)
+        c.update(kind="refuse", xp=base + rng.choice(HID_ONE_NESTED) + txt, steps=[])
+    elif r < 0.4:
         txt, steps = rng.choice(HID_TAILS)
         c.update(kind="wrap" if under_key else "refuse", xp=base + rng.choice(HID_ONE) + txt, steps=[list(s) for s in steps])
     elif r < 0.7:
